@@ -1,4 +1,5 @@
-\* intended design (empty units complete on receipt): every trace incl. degenerate ones
+\* intended design (Dev = {}: empty units complete on receipt): every trace within the bounds,
+\* degenerate ones included, kernels submitted at any moment
 SPECIFICATION MCSpec
 CONSTANTS
   PortCap = 4
